@@ -309,6 +309,22 @@ func runCase(c *lintCase) caseResult {
 	return res
 }
 
+// isRouted: does a malformed placeholder planted at the position draw a
+// diagnostic of the expression rule there?  (Only consulted for the positions
+// marked MaybeUnrouted.)
+func isRouted(pi int) bool {
+	p := positions[pi]
+	r := render(p.Variant, p.ID, "${{ 1 + }}")
+	errs, err := lint(r.Text)
+	hx.Must(err)
+	for _, e := range errs {
+		if e.Line == r.Line && e.Kind == "expression" {
+			return true
+		}
+	}
+	return false
+}
+
 type failure struct {
 	What     string   `json:"what"`
 	Key      string   `json:"key"`
@@ -541,7 +557,13 @@ func main() {
 	if *tier == "thorough" {
 		nEmb = len(embNames)
 	}
+	unrouted := []string{}
 	for pi := range positions {
+		if positions[pi].MaybeUnrouted && !isRouted(pi) {
+			unrouted = append(unrouted, positions[pi].ID)
+			sum.Dist["skipped:position-not-routed-to-the-expression-checker(C03)"] += (len(sp.contexts) + len(sp.funcs)) * nEmb
+			continue
+		}
 		for _, c := range sp.contexts {
 			for emb := 0; emb < nEmb; emb++ {
 				cases = append(cases, makeCase(pi, c, false, emb))
@@ -618,7 +640,8 @@ func main() {
 		}
 	}
 	sum.Nontrivial = nontrivial
-	sum.Extra["positions"] = len(positions)
+	sum.Extra["positions"] = len(positions) - len(unrouted)
+	sum.Extra["unrouted_positions_skipped"] = unrouted
 	sum.Extra["lints"] = len(cases)
 
 	// 3. the exported table function itself
